@@ -59,7 +59,7 @@ type FxBuild = BuildHasherDefault<FxHasher>;
 pub fn meta() -> Meta {
     Meta {
         level: "model_checking",
-        rule: "for each kind in {bdd,zbdd} (quick) / {bdd,bcdd,zbdd} (thorough): quick: every sequence of 2 letters over the kind's full alphabet and of 3 letters over a 24-letter core alphabet; thorough: every sequence of 3 letters over the full alphabet and of 4 letters over the core alphabet (full alphabet: 36 resp. 41 C calls with fixed operand slots: constructors, not/and/or/xor/imp/ite with valid, repeated and INVALID operands, quantifiers/restrict/apply_exists/substitute resp. the set operations and make_node, cofactors, node_count/sat_count_double/eval/pick_cube queries, pick_cube_dd(_set), ref/unref, gc, manager_ref/unref, containing_manager) on a fresh C manager with 3 variables, pool = 3 slots + INVALID, results stored round-robin, mirrored call by call on a Rust-API twin manager; checks after every C call (validity <=> Ok, equal tables, INVALID in => INVALID out, node reference counts = owned handles, manager strong count = owned references, equal node counts), full release + gc at the end. A letter whose documented precondition does not hold in the state (valid function required for the queries and containing_manager, valid replacement for substitution_add_pair, make_node: var above hi and lo, >= 2 manager references owned for manager_unref; quantifier/restrict/pick_cube_dd_set cube operands are built by the letter itself) is disabled and cuts the sequence. The sweep calls every exported entry point (all oxidd_<kind>_* and the 24 kind-independent ones) at least once from each state reached at depth <= 1 (quick) / <= 2 (thorough). executions = sequences run on the real C API; transitions = C calls executed; states = distinct abstract states (slot tables, manager references, node count). A sequence is non-trivial when its last letter was executed with valid operands only (and, if it returns a function, returned a valid one).",
+        rule: "for each kind in {bdd,zbdd} (quick) / {bdd,bcdd,zbdd} (thorough): quick: every sequence of 2 letters over the kind's full alphabet and of 3 letters over a 24-letter core alphabet; thorough: every sequence of 3 letters over the full alphabet and of 4 letters over the core alphabet (full alphabet: 36 resp. 41 C calls with fixed operand slots: constructors, not/and/or/xor/imp/ite with valid, repeated and INVALID operands, quantifiers/restrict/apply_exists/substitute resp. the set operations and make_node, cofactors, node_count/sat_count_double/eval/pick_cube queries, pick_cube_dd(_set), ref/unref, gc, manager_ref/unref, containing_manager) on a fresh C manager with 3 variables, pool = 3 slots + INVALID, results stored round-robin, mirrored call by call on a Rust-API twin manager; checks after every C call (validity <=> Ok, equal tables, INVALID in => INVALID out, node reference counts = owned handles, manager strong count = owned references, equal node counts), full release + gc at the end. A letter whose documented precondition does not hold in the state (valid function required for the queries and containing_manager, valid replacement for substitution_add_pair, make_node: var above hi and lo, >= 2 manager references owned for manager_unref; quantifier/restrict/pick_cube_dd_set cube operands are built by the letter itself) is disabled and cuts the sequence. The sweep calls every exported entry point (all oxidd_<kind>_* and the 24 kind-independent ones) at least once from each state reached at depth <= 1 (quick) / <= 2 (thorough). `few0` / `few1`: managers with 0 and 1 variables (pick_cube of the constants: an empty assignment is not 'unsatisfiable'); `orders`: after every pair of reorder requests every single-variable substitution into two new functions. executions = sequences run on the real C API; transitions = C calls executed; states = distinct abstract states (slot tables, manager references, node count). A sequence is non-trivial when its last letter was executed with valid operands only (and, if it returns a function, returned a valid one).",
         assumptions: vec![
             "the C API sources are compiled unchanged as an rlib (capi-shim) and called through hand-declared prototypes in capi.rs; the cdylib/staticlib packaging and the generated C header are not exercised".into(),
             "the manager strong count is read from the Arc header in front of the raw manager pointer; its offset is calibrated per manager with a Rust-side clone (std's ArcInner is repr(C): strong, weak, data); if calibration fails the count checks are skipped and outcome mgr_count_unobservable is recorded".into(),
